@@ -131,6 +131,16 @@ func HarnessC15ExportImport() {
 			EdgePoints: data.Points{{Type: data.PointTypeTombstone, Key: "0", Time: vInstant(19886, 0, 0, 0)}}})
 		vCover("c15: grandchild present")
 	}
+	if vBool() {
+		// the export target was moved here from group gA: its old placement is
+		// tombstoned and comes first in the store's reply
+		moved := []data.NodeEdge{
+			{ID: "gA", Parent: "rootA", Type: data.NodeTypeGroup, EdgePoints: data.Points{{Type: data.PointTypeTombstone, Key: "0", Time: vInstant(19886, 0, 0, 0)}}},
+			{ID: "t", Parent: "gA", Type: "x", EdgePoints: data.Points{{Type: data.PointTypeTombstone, Key: "0", Time: vInstant(19886, 0, 0, 0), Value: 1}}},
+		}
+		tree = append(append([]data.NodeEdge{tree[0]}, moved...), tree[1:]...)
+		vCover("c15: moved export target")
+	}
 	srvA := vServeNodes(ncA, "rootA", tree)
 	src := c15Read(srvA, "rootA", "t")
 	vAssume(src != nil)
